@@ -79,6 +79,11 @@ def gen_plan(rng, i: int, tier: str) -> dict:
             plan["ops"].append({"op": "unprotect", "fl": "sync", "net": "online", "cache": "fresh",
                                 "blob": {"rk": rki, "sid": sid_m if member else sid_o, "pos": pos, "mode": rng.choice(("nonce", "nonce", "pub")),
                                          "trailing": rng.random() < 0.3, "data": rng.choice((0, 1, 17, 64)), "domain": dn or "x.test", "forest": fn}})
+    if r2.random() < 0.2 and len(plan["ops"]) >= 2:
+        # the caller passes no cache at all (the documented default): every call still starts from nothing
+        for o in plan["ops"]:
+            o["cache"] = "none"
+        plan["no_cache_argument"] = True
     return plan
 
 
@@ -127,6 +132,8 @@ def judge_one(plan, tr: P.Trace, fl: str):
     slow = bool(plan.get("slow_dc"))
     if slow:
         probes["slow_dc"] = 1
+    if plan.get("no_cache_argument"):
+        probes["no_cache_argument"] = 1
 
     def V(clause, cond, detail, ot=None):
         et = ""
@@ -265,7 +272,7 @@ class C17(common.Check):
     assumptions = ["Kerberos is not simulated", "loopback TCP of the statement is replaced by the simulated transport",
                    "ept_map max_towers / handle / referent ids and alloc_hint are recorded, not judged"]
     required_fired = ("unprotect_ok", "protect_seed", "protect_public", "future_key", "non_member_unprotect", "dns", "real_ctx", "l2_omitted",
-                      "pos_corner", "prev_l0", "blob_pub", "concurrent_ops", "thread_ops", "thread_overlap", "slow_dc")
+                      "pos_corner", "prev_l0", "blob_pub", "concurrent_ops", "thread_ops", "thread_overlap", "slow_dc", "no_cache_argument")
 
     def cases(self, tier, seed):
         rng = prng.stream(seed, "C17")
